@@ -7,6 +7,8 @@ import (
 	"go/types"
 	"strings"
 
+	"golang.org/x/tools/go/packages"
+
 	"j5verif/checker/core"
 )
 
@@ -106,6 +108,8 @@ func checkP6(r *core.Run, f *ScopeFunc, call *ast.CallExpr, table string) {
 		if facts.GeZero[cs] || facts.False[cs+" < 0"] {
 			o.Auto("count tested non-negative")
 		} else if why, ok := nonNegModArith(info, call.Args[1]); ok {
+			o.Auto("%s", why)
+		} else if why, ok := nonNegField(f.Pkg, call.Args[1]); ok {
 			o.Auto("%s", why)
 		} else if !r.Table(table, o) {
 			o.Fail("count may be negative: strings.Repeat panics")
@@ -558,4 +562,127 @@ func nonNegModArith(info *types.Info, e ast.Expr) (string, bool) {
 		return "", false
 	}
 	return fmt.Sprintf("%d - len(..) %% %d lies in [%d, %d]", k, mod, k-mod+1, k), true
+}
+
+// nonNegField: the expression is an unexported integer field of a package
+// struct that can never be negative: every write to it in the package is an
+// increment, an assignment or addition of a non-negative constant, or a
+// decrement immediately followed by the clamp `if x.f < 0 { x.f = 0 }`; its
+// address is never taken and no composite literal sets it to a negative
+// constant. (The zero value is the initial value.)
+func nonNegField(pk *packages.Package, e ast.Expr) (string, bool) {
+	info := pk.TypesInfo
+	sel, ok := core.Unparen(e).(*ast.SelectorExpr)
+	if !ok {
+		return "", false
+	}
+	fv, ok := info.Uses[sel.Sel].(*types.Var)
+	if !ok || !fv.IsField() || fv.Exported() || fv.Pkg() != pk.Types {
+		return "", false
+	}
+	if b, ok := fv.Type().Underlying().(*types.Basic); !ok || b.Info()&types.IsInteger == 0 {
+		return "", false
+	}
+	isField := func(x ast.Expr) bool {
+		s, ok := core.Unparen(x).(*ast.SelectorExpr)
+		return ok && info.Uses[s.Sel] == fv
+	}
+	nonNegConst := func(x ast.Expr) bool {
+		k, ok := core.ConstInt(info, x)
+		return ok && k >= 0
+	}
+	// is st the clamp of the field?
+	isClamp := func(st ast.Stmt) bool {
+		is, ok := st.(*ast.IfStmt)
+		if !ok || is.Init != nil || is.Else != nil || len(is.Body.List) != 1 {
+			return false
+		}
+		c, ok := core.Unparen(is.Cond).(*ast.BinaryExpr)
+		if !ok || c.Op != token.LSS || !isField(c.X) {
+			return false
+		}
+		if k, ok := core.ConstInt(info, c.Y); !ok || k != 0 {
+			return false
+		}
+		as, ok := is.Body.List[0].(*ast.AssignStmt)
+		return ok && as.Tok == token.ASSIGN && len(as.Lhs) == 1 && isField(as.Lhs[0]) && nonNegConst(as.Rhs[0])
+	}
+	bad := ""
+	writes := 0
+	var scan func(list []ast.Stmt)
+	checkStmt := func(st ast.Stmt, next ast.Stmt) {
+		switch x := st.(type) {
+		case *ast.IncDecStmt:
+			if !isField(x.X) {
+				return
+			}
+			writes++
+			if x.Tok == token.DEC && (next == nil || !isClamp(next)) {
+				bad = "decrement without the clamp to 0 right after it"
+			}
+		case *ast.AssignStmt:
+			for i, l := range x.Lhs {
+				if !isField(l) {
+					continue
+				}
+				writes++
+				switch {
+				case len(x.Rhs) != len(x.Lhs):
+					bad = "multi-value assignment"
+				case (x.Tok == token.ASSIGN || x.Tok == token.ADD_ASSIGN) && nonNegConst(x.Rhs[i]):
+				case x.Tok == token.SUB_ASSIGN && next != nil && isClamp(next):
+				default:
+					bad = "assignment " + core.ExprStr(l) + " " + x.Tok.String() + " " + core.ExprStr(x.Rhs[i])
+				}
+			}
+		}
+	}
+	scan = func(list []ast.Stmt) {
+		for i, st := range list {
+			var next ast.Stmt
+			if i+1 < len(list) {
+				next = list[i+1]
+			}
+			checkStmt(st, next)
+		}
+	}
+	core.AllFuncDecls(pk, func(fd *ast.FuncDecl) {
+		if fd.Body == nil {
+			return
+		}
+		ast.Inspect(fd.Body, func(n ast.Node) bool {
+			switch x := n.(type) {
+			case *ast.BlockStmt:
+				scan(x.List)
+			case *ast.CaseClause:
+				scan(x.Body)
+			case *ast.CommClause:
+				scan(x.Body)
+			case *ast.IfStmt:
+				if x.Init != nil {
+					checkStmt(x.Init, nil)
+				}
+			case *ast.ForStmt:
+				if x.Init != nil {
+					checkStmt(x.Init, nil)
+				}
+				if x.Post != nil {
+					checkStmt(x.Post, nil)
+				}
+			case *ast.UnaryExpr:
+				if x.Op == token.AND && isField(x.X) {
+					bad = "its address is taken"
+				}
+			case *ast.KeyValueExpr:
+				if id, ok := x.Key.(*ast.Ident); ok && info.Uses[id] == fv && !nonNegConst(x.Value) {
+					bad = "composite literal sets it to " + core.ExprStr(x.Value)
+				}
+			}
+			return true
+		})
+	})
+	if bad != "" {
+		return "", false
+	}
+	return fmt.Sprintf("field %s is never negative: all %d write(s) in the package are increments, non-negative constants, or a decrement clamped to 0 in the next statement; its address is not taken", fv.Name(), writes), true
 }
